@@ -131,6 +131,7 @@ def repo_test_traces(rep: Report, wd: str):
 
 
 LEVELB = {"C02", "C03", "C06", "C09"}
+PASSES = {"C01", "C04"}      # checks that also drive the PassManager over two-module IRs
 LEVELB_CASES = {"quick": 300, "thorough": 3000}
 
 
@@ -199,6 +200,10 @@ def run(prop: str, tier: str, replay: str = None) -> int:
         if replay:
             with open(replay) as f:
                 rec = json.load(f)
+            if "pm_case" in rec["case"]:
+                from . import passes
+                passes.replay(rep, wd, rec["case"]["pm_case"], prop, judge)
+                return rep.finish(write_evidence=False)
             with open(cases, "w") as out:
                 out.write(json.dumps(rec["case"]) + "\n")
             n = 1
@@ -236,6 +241,9 @@ def run(prop: str, tier: str, replay: str = None) -> int:
                 c = json.loads(line)
                 case_by_id[c["id"]] = c
         judge(rep, prop, verdicts, case_by_id)
+        if prop in PASSES and not replay:
+            from . import passes
+            passes.stage(rep, wd, cases, tier, rng, prop, judge)
         if prop in LEVELB and not replay:
             level_b_drift(rep, wd, cases, tier, rng)
             res = mc_future.result()
